@@ -172,7 +172,9 @@ def drive(tier, seed):
         k = rng.choice([0, 0, 0, 1, 2, 3, 5, 9])
         lazy = ctor["c"] in ("map", "zip")
         obs = [inf_obs(rng, lazy) if inf else fin_obs(rng, ints) for _ in range(GROUP - 1)]
-        walks.append({"decl": S.decl_steps(ctor, k), "steps": [S.render_ob(o) for o in obs]})
+        # in one walk out of six every integer argument of an observation is held in big representation
+        how = "bigrep" if len(walks) % 6 == 5 else "lit"
+        walks.append({"decl": S.decl_steps(ctor, k), "steps": [S.render_ob(o, how=how) for o in obs]})
         metas.append(dict(ctor=ctor, k=k, obs=obs, inf=inf))
     results, declres = S.run_walks(walks, timeout_ms=10000)
     events, info = [], []
